@@ -19,8 +19,17 @@ def insertSorted (x : Rat) : List Rat → List Rat
   | y :: ys => if x ≤ y then x :: y :: ys else y :: insertSorted x ys
 def sortRat (l : List Rat) : List Rat := l.foldr insertSorted []
 
-/-- `add_time_points` -/
-def ArcInst.addTimePoints (I : ArcInst) (pts : List Rat) : ArcInst := { I with T := sortRat pts }
+/-- adjacent repeats of a sorted list removed (`np.unique` after sorting) -/
+def dedupSorted : List Rat → List Rat
+  | [] => []
+  | [a] => [a]
+  | a :: b :: rest => if a = b then dedupSorted (b :: rest) else a :: dedupSorted (b :: rest)
+
+/-- `add_time_points` (repaired: `np.unique` — sorted, each point once; the pinned code only sorted) -/
+def ArcInst.addTimePoints (I : ArcInst) (pts : List Rat) : ArcInst := { I with T := dedupSorted (sortRat pts) }
+
+/-- the pinned `add_time_points`: repeats are kept -/
+def ArcInst.addTimePointsPinned (I : ArcInst) (pts : List Rat) : ArcInst := { I with T := sortRat pts }
 
 /-- the `continue` / `break` scan of the (sorted) grid against a window:
     skip while `s < lo`, stop at the first `s > hi` -/
